@@ -16,7 +16,7 @@ pub fn run(rep: &mut Report, thorough: bool) {
     let mut rng = Rng::new(rep.seed.wrapping_mul(707_071));
     let ntargets = if thorough { 700 } else { 8 };
     let per_target = if thorough { 24 } else { 12 };
-    for _ in 0..ntargets {
+    for ti in 0..ntargets {
         let mut b = Builder::new();
         // pattern regions: a big rw one (1 MiB + 3 pages), small ones, an r-x one; each fenced
         let big = b.anon(256 + 3, 4, 6, Fill::Pattern);
@@ -25,7 +25,7 @@ pub fn run(rep: &mut Report, thorough: bool) {
         let rx_pages = *rng.pick(&[1u64, 2, 5]);
         // half of the targets have a distinct readable mapping directly below the r-x one (no gap),
         // and one directly above
-        let adjacent = rng.chance(1, 2);
+        let adjacent = ti % 2 == 0;
         if adjacent {
             b.anon(2, 3, 6, Fill::Pattern);
         }
@@ -51,7 +51,7 @@ pub fn run(rep: &mut Report, thorough: bool) {
             }
         };
         let lines = t.maps();
-        for _ in 0..per_target {
+        for di in 0..per_target {
             let mut o = DumpOpts::new(t.pid, t.pid);
             // sanitization only concerns the stacks: every other region must stay byte-exact
             o.sanitize = rng.chance(1, 3);
@@ -88,7 +88,8 @@ pub fn run(rep: &mut Report, thorough: bool) {
                 }
             }
             // crash context / instruction pointer position
-            let ip_choice = rng.below(12);
+            // every instruction-pointer position once per target, then random ones
+            let ip_choice = if di < 12 { di as u64 } else { rng.below(12) };
             let ip = match ip_choice {
                 0 => None,
                 1 => Some(hole + 100),
